@@ -35,10 +35,12 @@ import (
 // Case is one hostile input for one parser entry point.
 type Case struct {
 	Target string `json:"target"` // crl | chain | rdn | pem
-	Kind   string `json:"kind"`
-	Data   []byte `json:"data"`
-	Alg    int    `json:"alg,omitempty"` // chain target: public key algorithm asked for
-	Note   string `json:"note,omitempty"`
+	// IssuerDER (target chain): a CRL issuer name to look candidates up by (no authority key identifier in that case)
+	IssuerDER []byte `json:"issuer_der,omitempty"`
+	Kind      string `json:"kind"`
+	Data      []byte `json:"data"`
+	Alg       int    `json:"alg,omitempty"` // chain target: public key algorithm asked for
+	Note      string `json:"note,omitempty"`
 }
 
 type discard struct{ started bool }
@@ -401,7 +403,21 @@ func genChainCase(t *rapid.T) Case {
 		ext, _ := gen.AKIExtension(form, chainPKI.inter.Cert)
 		valid = append(valid, ext.Value)
 	}
-	switch rapid.IntRange(0, 3).Draw(t, "ck") {
+	switch rapid.IntRange(0, 5).Draw(t, "ck") {
+	case 4:
+		// lookup by issuer NAME (the list has no authority key identifier): the name of a chain certificate whose
+		// attribute value got another ASN.1 type (OCTET STRING, INTEGER, BOOLEAN, NULL, BMPString, TeletexString, SEQUENCE...)
+		c.Kind = "issuer-retag"
+		name := append([]byte{}, chainPKI.inter.Cert.RawSubject...)
+		if i := bytes.Index(name, []byte("c07 inter")); i >= 2 {
+			name[i-2] = rapid.SampledFrom([]byte{0x04, 0x02, 0x01, 0x05, 0x1e, 0x14, 0x30, 0x31, 0x03, 0x17, 0x0a, 0x80, 0xa0}).Draw(t, "itag")
+		}
+		c.IssuerDER = name
+		return c
+	case 5:
+		c.Kind = "issuer-mutate"
+		c.IssuerDER, c.Note = mutateTree(t, chainPKI.inter.Cert.RawSubject)
+		return c
 	case 0:
 		c.Kind = "random"
 		c.Data = rapid.SliceOfN(rapid.Byte(), 0, 80).Draw(t, "cb")
@@ -571,6 +587,15 @@ func runCase(c Case, x *ev.Ctx) error {
 		chains := core.NewCertificateChains([][]*x509.Certificate{{chainPKI.leaf.Cert, chainPKI.inter.Cert, chainPKI.root.Cert}}, []*x509.Certificate{chainPKI.root.Cert})
 		exts := []pkix.Extension{{Id: asn1.ObjectIdentifier{2, 5, 29, 20}, Value: []byte{2, 1, 1}}, {Id: asn1.ObjectIdentifier{2, 5, 29, 35}, Value: c.Data}}
 		issuer := gen.CN("c07 inter").RDN()
+		if len(c.IssuerDER) > 0 {
+			parsed, perr := asn1parser.ParseRDNSequence(c.IssuerDER)
+			if perr != nil || parsed == nil {
+				x.Class("chain/issuer-name-not-parseable")
+				return nil
+			}
+			issuer = *parsed
+			exts = exts[:1] // no authority key identifier: candidates are looked up by name
+		}
 		var cands []*core.CertificateChainEntry
 		var cerr error
 		err := guarded(len(c.Data), func() {
@@ -582,7 +607,9 @@ func runCase(c Case, x *ev.Ctx) error {
 		if cerr == nil {
 			x.Classf("chain/candidates-%d", len(cands))
 		}
-		if _, perr := gen.ParseAKI(c.Data); perr == nil {
+		if len(c.IssuerDER) > 0 {
+			x.NonTrivial(fmt.Sprintf("chain|%s|%x", c.Kind, c.IssuerDER))
+		} else if _, perr := gen.ParseAKI(c.Data); perr == nil {
 			x.NonTrivial(fmt.Sprintf("chain|%s|%x", c.Kind, c.Data))
 		}
 	case "rdn":
@@ -648,7 +675,7 @@ var spec = ev.Spec[Case]{
 	Gen:      genCase,
 	Run:      runCase,
 	Inflight: true,
-	Rule:     "rapid draws hostile inputs for four entry points: ReadCRL on a file (random bytes; every-position truncations of valid DER/PEM CRLs; structure-aware tree mutations of a valid CRL that keep enclosing lengths consistent: hostile length forms 0x80..0x8F/2^31/2^63/2^64-1/negative, tag swaps, length +-delta, dropped content, nesting up to 2000, duplicate/delete/empty; per-field hostile lengths; PEM armour/line/newline damage incl. armour floods and lines of 1..12 dashes with or without text; entries carrying a certificateIssuer extension with GeneralNames of every shape), the chain matcher with mutated AKI values, ParseRDNSequence (differential with encoding/asn1) and PemReader. Oracle inside the target: no panic, result within 30 s, TotalAlloc delta <= 4 MiB + 64*len(input), max stack 16 MiB; every input whose header the reader accepts is additionally pushed through the real pipeline reader -> persisting processor -> memory store (no panic, result within 30 s, TotalAlloc delta <= 64 MiB + 512*len(input)). Non-trivial: the input passes the reader's algorithm pre-pass (so the main pass runs) / the AKI value decodes / the bytes start a SEQUENCE / contain armour; distinct by (kind, mutation, size bucket).",
+	Rule:     "rapid draws hostile inputs for four entry points: ReadCRL on a file (random bytes; every-position truncations of valid DER/PEM CRLs; structure-aware tree mutations of a valid CRL that keep enclosing lengths consistent: hostile length forms 0x80..0x8F/2^31/2^63/2^64-1/negative, tag swaps, length +-delta, dropped content, nesting up to 2000, duplicate/delete/empty; per-field hostile lengths; PEM armour/line/newline damage incl. armour floods and lines of 1..12 dashes with or without text; entries carrying a certificateIssuer extension with GeneralNames of every shape), the chain matcher with mutated AKI values and (lookup by name) with issuer names whose attribute values carry other ASN.1 types or are tree-mutated, ParseRDNSequence (differential with encoding/asn1) and PemReader. Oracle inside the target: no panic, result within 30 s, TotalAlloc delta <= 4 MiB + 64*len(input), max stack 16 MiB; every input whose header the reader accepts is additionally pushed through the real pipeline reader -> persisting processor -> memory store (no panic, result within 30 s, TotalAlloc delta <= 64 MiB + 512*len(input)). Non-trivial: the input passes the reader's algorithm pre-pass (so the main pass runs) / the AKI value decodes / the bytes start a SEQUENCE / contain armour; distinct by (kind, mutation, size bucket).",
 	Assumptions: []string{
 		"runtime.MemStats.TotalAlloc measures allocation of the call (no other goroutine allocates during a case)",
 		"the stack cap (debug.SetMaxStack 16 MiB) is far above what any well-formed CRL needs",
